@@ -177,6 +177,66 @@ def dimer_checks(part, seed):
                 part.count("dimer_convention_%s" % ("R.T" if m1 <= m2 else "R"))
 
 
+def crystal_dimer_checks(part, seed):
+    """
+    Dimer.transform_ab as produced by Crystal.symmetry_unique_dimers, for several crystals analysed one after the other in one
+    process (same space group and symmetry codes, different cells and molecular orientations): the stored rotation of EVERY
+    dimer is proper and superposes b onto a as well as the optimum over proper rotations does
+    """
+    from mc import xtal
+    from mc.ref import lattice
+    from mc.ref.mol import rot
+
+    tmpl = np.array([[0.0, 0.0, 0.0], [0.63, 0.63, 0.63], [-0.8, -0.8, 0.8], [-1.0, 1.0, -1.0], [1.1, -1.1, -1.1]])
+    syms = ["C", "H", "F", "Cl", "Br"]
+    specs = {
+        "A": (14, "b1", (7.9, 8.7, 9.6, 90.0, 104.0, 90.0), rot((1, 2, 3), 0.4), (0.21, 0.13, 0.28)),
+        "B": (14, "b1", (8.4, 11.3, 8.1, 90.0, 117.0, 90.0), rot((-1, 0.5, 2), 1.9), (0.27, 0.62, 0.19)),
+        "C": (2, "", (6.9, 7.4, 8.8, 77.0, 98.0, 111.0), rot((0, 1, 1), 2.6 + 0.1 * seed), (0.24, 0.31, 0.22)),
+        "D": (14, "b1", (7.9, 8.7, 9.6, 90.0, 104.0, 90.0), rot((2, -1, 1), 1.1), (0.21, 0.13, 0.28)),
+    }
+
+    def build(k):
+        n, ch, cell, Q, centre = specs[k]
+        M = lattice.cell_matrix(*cell)
+        cart = np.array(centre) @ M + tmpl @ Q.T
+        return xtal.make_crystal(n, ch, cell, syms, cart @ np.linalg.inv(M))
+
+    for order in (("A", "B", "C", "D", "A"), ("D", "C", "B", "A"), ("B", "A"), ("C", "A", "D")):
+        part.ev()
+        for step, k in enumerate(order):
+            case = {"kind": "crystal-dimer", "seed": seed, "order": list(order[: step + 1])}
+            try:
+                c = build(k)
+                unique, per_mol = c.symmetry_unique_dimers(radius=5.0)
+            except Exception as e:
+                part.fail("crystal-dimer:raise", "symmetry_unique_dimers of crystal %s raised %r" % (k, e), case)
+                continue
+            alld = list(unique) + [d for lst in per_mol for (_, d) in lst]
+            if len(unique) < 3:
+                part.fail("harness:crystal-dimer:too-few", "crystal %s has only %d unique dimers within 5 A" % (k, len(unique)), case)
+            for d in alld:
+                part.tr()
+                if d.transform_ab is None:
+                    continue
+                R = np.asarray(d.transform_ab[0], dtype=float)
+                pa = np.asarray(d.a.positions) - np.asarray(d.a.centroid)
+                pb = np.asarray(d.b.positions) - np.asarray(d.b.centroid)
+                if np.abs(R @ R.T - np.eye(3)).max() > 1e-9 or abs(np.linalg.det(R) - 1.0) > 1e-9:
+                    part.fail("crystal-dimer:improper", "a dimer of crystal %s (analysed after %s) stores a matrix that is not a proper rotation" % (k, list(order[:step])), case)
+                    break
+                got = float(np.sqrt(np.sum((pb @ R - pa) ** 2) / len(pa)))
+                got_t = float(np.sqrt(np.sum((pb @ R.T - pa) ** 2) / len(pa)))
+                ref, _ = horn.optimal_rmsd(pb, pa)
+                part.dev("crystal_dimer_excess", min(got, got_t) - ref)
+                if got > ref + TOL:
+                    part.fail("crystal-dimer:suboptimal", "a dimer of crystal %s (analysed after %s): the stored rotation superposes b on a with RMSD %.6f, the optimum over proper rotations is %.6f"
+                              % (k, list(order[:step]), got, ref), case)
+                    break
+            part.outcome(("crystal-dimer", k, len(unique)))
+    part.nstates(4)
+
+
 def run(ctx):
     from mc.core import chunked
 
@@ -205,12 +265,16 @@ def run(ctx):
                        "reference optimum by Horn's quaternion eigenvalue method, tolerance 1e-8 on the RMSD"]
     ctx.pmap(worker, chunked(sets, max(1, len(sets) // 128)), seed=ctx.seed)
     dimer_checks(ctx, ctx.seed)
+    crystal_dimer_checks(ctx, ctx.seed)
     if ctx.counters.get("dimer_convention_R.T") and ctx.counters.get("dimer_convention_R"):
         pass
     ctx.sample({"a_triple": list(sets[0][1]), "a_collinear_triple": [(-1, -1, -1), (0, 0, 0), (1, 1, 1)]})
 
 
 def replay(ctx, case):
+    if case.get("kind") == "crystal-dimer":
+        crystal_dimer_checks(ctx, case["seed"])
+        return
     if case.get("kind") == "dimer":
         dimer_checks(ctx, case["seed"])
         return
